@@ -318,6 +318,24 @@ func rulesC13(r *Run) {
 	ruleTimeDecoding(r, "R7")
 	r.Expect("R7", 3)
 
+	// ---- R8 a Create that returns an error leaves nothing that Read would return (round-3 seed C13-5): the create
+	// transaction watches the error the function returns
+	r.Kind("R8", "K11+K3")
+	{
+		createScope := sqliteCreateScope(r)
+		nTx := 0
+		for _, k := range createScope {
+			if fn := r.P.Funcs[k]; fn != nil && registersTransaction(fn) {
+				nTx++
+				ruleTransactionScope(r, "R8", k, createScope)
+			}
+		}
+		if nTx == 0 {
+			r.Fail("R8", "transaction-scope:count", m.pkgPos(), "no function reachable from Create registers sqlitex.Transaction")
+		}
+		r.Expect("R8", 1)
+	}
+
 	// ---- R6 cosmosdb
 	rulesCosmosRoundTrip(r, "R6")
 }
@@ -699,6 +717,7 @@ func rulesC14(r *Run) {
 
 	r.Kind("R5", "K3")
 	ruleCosmosBatch(r, "R5")
+	ruleBatchPerAttempt(r, "R5")
 }
 
 func hasErrorResult(fn *Func) bool {
@@ -835,6 +854,25 @@ func ruleTransactionScope(r *Run, rule, key string, scope []string) {
 				u := UseOfResult(fl, p, j)
 				if u.Verdict == "nonnil" && u.Var != errObj && bad == "" {
 					bad = "the failing call " + ExprStr(e.Call.Fun) + " stores its error in a different variable than the one sqlitex.Transaction watches (" + errObj.Name() + "): the transaction would COMMIT although the function returns an error"
+				}
+			}
+			// … and what the function returns after the registration is that variable (round-3 seed C13-5: `return
+			// commitPlan(…)` with the transaction watching a local that nothing assigns — it always commits)
+			for j := ti; j < len(p.Ev); j++ {
+				e := p.Ev[j]
+				if e.Kind != EvReturn || e.Deferred || e.Depth > 0 || len(e.Rhs) == 0 || e.From != p.Ev[ti].From {
+					continue // only the returns of the body (function or callback) that registered the transaction
+				}
+				res := e.Rhs[len(e.Rhs)-1]
+				if ValueKey(info, res) == "nil" || ObjOf(info, res) == errObj {
+					continue
+				}
+				// returning a wrapped error is fine when the watched variable is known to hold the failure
+				if NilnessAt(info, p, j, &ast.Ident{Name: errObj.Name()}) == "nonnil" || nilnessOfObj(info, p, j, errObj) == "nonnil" {
+					continue
+				}
+				if bad == "" {
+					bad = "the function returns " + ExprStr(res) + " while sqlitex.Transaction watches the variable " + errObj.Name() + ", which is not a named result and is not what is returned: the transaction COMMITS although the function returns an error, a plan that failed midway stays stored in part"
 				}
 			}
 		}
@@ -1500,3 +1538,35 @@ func ruleListQuery(r *Run, rule string, m *sqliteModel) {
 }
 
 // placeholders for the cosmosdb rules (filled in rules_cosmos.go)
+
+// nilnessOfObj: NilnessAt for a variable given by its object (searches the path for an identifier that denotes it).
+func nilnessOfObj(info *types.Info, p *Path, idx int, obj types.Object) string {
+	var id *ast.Ident
+	for j := idx; j >= 0 && id == nil; j-- {
+		e := p.Ev[j]
+		visit := func(n ast.Node) {
+			if n == nil {
+				return
+			}
+			ast.Inspect(n, func(x ast.Node) bool {
+				if i, ok := x.(*ast.Ident); ok && id == nil && info.ObjectOf(i) == obj {
+					id = i
+				}
+				return id == nil
+			})
+		}
+		if e.Cond != nil {
+			visit(e.Cond)
+		}
+		for _, l := range e.Lhs {
+			visit(l)
+		}
+		for _, l := range e.Rhs {
+			visit(l)
+		}
+	}
+	if id == nil {
+		return ""
+	}
+	return NilnessAt(info, p, idx, id)
+}
